@@ -14,7 +14,7 @@ from . import common as C
 from .c02 import NOW, gen_case, parse_tok_tree
 
 PROP = "C01"
-PROPS_MODULES = ["AsyncFix.Props.C01"]
+PROPS_MODULES = ["AsyncFix.Props.C01", "AsyncFix.Props.C01Bridge"]
 ASSUMPTIONS = [
     "frames are byte strings; the decoder's latin-1 step is a bijection between bytes and code points < 256",
     "BodyLength has at most 4300 digits (CPython's int() limit): frames shorter than 10^4300 bytes",
